@@ -239,7 +239,7 @@ class KroneckerProductLinearOperator(LinearOperator):
             y = y.reshape(*batch_shape, n, n_rows // n, -1).permute(*perm_batch, -2, -3, -1)
         res = y.reshape(*batch_shape, n_rows, -1)
 
-        if num_tridiag == 0:
+        if not num_tridiag:
             return res
         else:
             # we need to return the t mat, so we return the eigenvalues
